@@ -19,6 +19,9 @@ type SASLConfig struct {
 	Mechanisms []string          // enabled mechanisms, e.g. PLAIN, SCRAM-SHA-256, SCRAM-SHA-512
 	Users      map[string]string // user -> password (already SASLprep'ed form expected from clients)
 	Iterations int
+	// Legs: round trips of the mechanism "LEGS" (a plain challenge-response mechanism of configurable length: the client
+	// sends "leg-<i>" NUL user NUL password, the server answers "more-<i>" until the last leg, where it decides)
+	Legs int
 	// NullErrorMessages: failed SaslAuthenticate rounds are answered with the error code and a null error message (the
 	// message is optional on the wire)
 	NullErrorMessages bool
@@ -161,6 +164,27 @@ func (c *Cluster) authStep(sc *memnet.ServerConn, st *connState, cfg *SASLConfig
 		user, pass := parts[1], parts[2]
 		ev.User = user
 		if want, ok := cfg.Users[user]; ok && want == pass {
+			st.authed = true
+			ev.Verdict = "ok"
+			c.authEvent(ev)
+			return []byte{}, 0, "", true
+		}
+		ev.Verdict = "rejected"
+		c.authEvent(ev)
+		return nil, ErrSASLAuthenticationFailed, "invalid credentials", true
+	case "LEGS":
+		parts := strings.SplitN(string(token), "\x00", 3)
+		if len(parts) != 3 || parts[0] != fmt.Sprintf("leg-%d", st.step) {
+			c.violation("conn %d: malformed LEGS token %q at step %d", sc.ID(), truncate(token, 200), st.step)
+			ev.Verdict = "error"
+			c.authEvent(ev)
+			return nil, ErrSASLAuthenticationFailed, "malformed LEGS token", true
+		}
+		ev.User = parts[1]
+		if st.step < cfg.Legs {
+			return []byte(fmt.Sprintf("more-%d", st.step)), 0, "", false
+		}
+		if want, ok := cfg.Users[parts[1]]; ok && want == parts[2] {
 			st.authed = true
 			ev.Verdict = "ok"
 			c.authEvent(ev)
